@@ -168,6 +168,7 @@ pub(crate) struct Step<const NB: usize> {
     pub sid: u16,
     pub pre_tag_start: Option<usize>,
     pub pre_last_hash: LocalNameHash,
+    pub pre_pending: Option<TextType>,
 }
 
 /// `rem` >= 0: reduction for states with deep #[inline] chains — the chunk has exactly NB bytes of which
@@ -189,7 +190,8 @@ pub(crate) fn pre_step<T: Tables, const NB: usize>(sid: u16, foreign: bool, rem:
     };
     let pre_tag_start = l.tag_start;
     let pre_last_hash = l.last_start_tag_name_hash;
-    Step { input, n, l, ctx, sid, pre_tag_start, pre_last_hash }
+    let pre_pending = l.pending_text_type_change;
+    Step { input, n, l, ctx, sid, pre_tag_start, pre_last_hash, pre_pending }
 }
 
 pub(crate) const OUT_OK: u8 = 0;
@@ -198,7 +200,7 @@ pub(crate) const OUT_EOF: u8 = 2;
 pub(crate) const OUT_SWITCH: u8 = 3;
 
 pub(crate) fn post_step<T: Tables, const NB: usize>(st: Step<NB>, r: StateResult) -> (u8, usize) {
-    let Step { input, n, l, ctx, sid, pre_tag_start, pre_last_hash } = st;
+    let Step { input, n, l, ctx, sid, pre_tag_start, pre_last_hash, pre_pending } = st;
     let input = &input[..n];
     let hints = ctx.output_sink.hints;
     let (_, _, _, gate) = T::info(sid);
@@ -226,6 +228,13 @@ pub(crate) fn post_step<T: Tables, const NB: usize>(st: Step<NB>, r: StateResult
             }
             if gate && hints == 1 {
                 assert!(l.last_start_tag_name_hash == pre_last_hash, "[C03] end tag hint leaves the last start tag name alone");
+            }
+            // the text-mode switch a start tag asked for (kept pending until the tag's '>') is applied when the
+            // pending marker is consumed; it is never dropped on the way (e.g. by a self-closing slash)
+            if hints == 0 {
+                if let (Some(t), None) = (pre_pending, l.pending_text_type_change) {
+                    assert!(l.last_text_type == t, "[C06] a pending text-mode switch is applied when the tag ends, never dropped");
+                }
             }
         }
         Err(e) => {
